@@ -22,7 +22,7 @@ ASSUMPTIONS = ['frequency filtering is switched off with --min-freq 0 as the sta
                'the model dictionary of the weed file is computed by vlib/model.py']
 REQUIRED = {t: ['weed:forward', 'weed:reverse', 'partition_checked', 'idempotence_checked', 'weed_all', 'weed_nothing',
                 'single_strand_rc_not_matched', 'rows_removed', 'rows_kept', 'width64', 'width128', 'stored_objects_checked',
-                'weed_without_kmers_leaves_file_intact', 'unwritable_output_refused', 'files_not_named_skf', 'weed_file_gzipped', 'out:inplace', 'out:same-file', 'out:other-existing-file', 'files_of_4096+_rows'] for t in ('quick', 'thorough')}
+                'weed_without_kmers_leaves_file_intact', 'unwritable_output_refused', 'files_not_named_skf', 'weed_headers_sharing_their_first_word', 'weed_file_gzipped', 'out:inplace', 'out:same-file', 'out:other-existing-file', 'files_of_4096+_rows'] for t in ('quick', 'thorough')}
 
 
 def builds(tier):
@@ -108,7 +108,12 @@ def run_case(desc, ctx):
     wk = set(M.build(wrecs, k, rcmode))
     files = [G.write_fa(ctx.path('s%d.fa' % i), recs) for i, recs in enumerate(samples)]
     gz = rng.random() < 0.2
-    weedfile = G.write_fa(ctx.path('weed.fa.gz' if gz else 'weed.fa'), wrecs, wrap=rng.choice([0, 0, 60]), gz=gz)
+    # record headers: r<i>, or (a third) headers that share their first word, or are all the same
+    hstyle = rng.choice(['plain', 'plain', 'shared-first-word', 'identical'])
+    wnames = None if hstyle == 'plain' else [('mge part %d' % i if hstyle == 'shared-first-word' else 'contig') for i in range(len(wrecs))]
+    if wnames:
+        res.count('weed_headers_sharing_their_first_word')
+    weedfile = G.write_fa(ctx.path('weed.fa.gz' if gz else 'weed.fa'), wrecs, wrap=rng.choice([0, 0, 60]), gz=gz, names=wnames)
     if gz:
         res.count('weed_file_gzipped')
     res.see('k_rc', '%d/%s' % (k, 'rc' if rcmode else 'ss'))
